@@ -85,8 +85,17 @@ def run(rep, rng, tier):
         if any(isinstance(x, ImplError) for x in (ra, rb, rab)):
             viol('response_series[linearity]', args, [x for x in (ra, rb, rab) if isinstance(x, ImplError)][0])
             continue
+        # tolerance per row: 1e-11 of the peak of the STATE norm in the units of the series (so that a velocity row that is
+        # ~0 at every sample instant, e.g. xi = 0 with T/dt = 1, is not compared relative to its own rounding noise)
+        ws = [0.0 if P == 0 else c01.C2PI / P for P in periods]
+
+        def state_scale(r, j):
+            u, v, acc = (np.abs(x).max(axis=1) for x in mats(r))
+            w = np.array(ws)
+            return [u + np.where(w > 0, v / np.where(w > 0, w, 1), 0), w * u + v, w * w * u + 2 * xi * w * v + acc][j]
         for j, nm in enumerate(names):
-            add('KLin %s %s %s %s %s %s' % (q(al), q(be), q(1e-11), qmat(mats(ra)[j]), qmat(mats(rb)[j]), qmat(mats(rab)[j])),
+            tols = 1e-11 * (abs(al) * state_scale(ra, j) + abs(be) * state_scale(rb, j))
+            add('KLinT %s %s %s %s %s %s' % (q(al), q(be), qlist(tols), qmat(mats(ra)[j]), qmat(mats(rb)[j]), qmat(mats(rab)[j])),
                 'response_series[linearity:%s]' % nm, args, nz=bool(np.any(a != 0) or np.any(b != 0)))
     # ---- causality
     for k in range(20 * N):
